@@ -35,3 +35,60 @@ def post_render_plain_when_unformatted(r):
     if len(r.old_self._fmts) == 0 and not r.reset_start:
         return r.result == r.old_self._s
     return True
+
+
+# ------------------------------------------------------------------------------------------ T1: the library's SGR tables
+GROUP_NAME = {0: 'RESET', 1: 'BOLDNESS', 2: 'ITALICS', 3: 'UNDERLINE', 4: 'OVERLINE', 5: 'BLINKING', 6: 'SWAP_BG_FG',
+              7: 'VISIBILITY', 8: 'CROSSED_OUT', 9: 'FONT_TYPE', 10: 'SPACING', 11: 'BOXING', 12: 'FG_COLOR', 13: 'BG_COLOR',
+              14: 'UL_COLOR'}
+KIND_NAME = {1: 'APPLY_SETTING', 2: 'CLEAR_SETTING', 3: 'RESET_ALL'}
+
+
+def table_row_ok(AnsiParam, code):
+    """the library knows exactly the codes of the independent SGR table, with the same effect group and the same
+    function (set / clear / reset).  Code 10 (primary font) may be classed as a font setting: displaying it and
+    clearing the font are the same thing."""
+    g = sgr_group(code)
+    try:
+        p = AnsiParam(code)
+    except ValueError:
+        return g == -1
+    if g == -1:
+        return False
+    if p.effect_type.name != GROUP_NAME[g]:
+        return False
+    if code == 10:
+        return p.effect_fn.name == 'APPLY_SETTING' or p.effect_fn.name == 'CLEAR_SETTING'
+    return p.effect_fn.name == KIND_NAME[sgr_kind(code)]
+
+
+def clear_dict_ok(EFFECT_CLEAR_DICT, AnsiParamEffect):
+    """every effect group is cleared by the code a terminal understands as switching that effect off"""
+    for g in range(1, 15):
+        eff = AnsiParamEffect[GROUP_NAME[g]]
+        if eff not in EFFECT_CLEAR_DICT:
+            return False
+        if EFFECT_CLEAR_DICT[eff].value != CLEAR_CODE[g]:
+            return False
+    return len(EFFECT_CLEAR_DICT) == 15
+
+
+def control_fns_ok(fns):
+    """exactly the six extended colour functions {38,48,58} x {5 -> 1 argument, 2 -> 3 arguments}"""
+    seen = []
+    for fn in fns:
+        seq = fn.setup_seq
+        if len(seq) != 2 or not (seq[0] == 38 or seq[0] == 48 or seq[0] == 58):
+            return False
+        if seq[1] == 5:
+            if fn.num_args != 1 or fn.total_seq_count != 3:
+                return False
+        elif seq[1] == 2:
+            if fn.num_args != 3 or fn.total_seq_count != 5:
+                return False
+        else:
+            return False
+        if seq in seen:
+            return False
+        seen.append(seq)
+    return len(seen) == 6
